@@ -142,6 +142,16 @@ pub fn edge_of_probe(g: &Inner, p: usize) -> Option<EdgeId> {
     (0..g.edges.len()).find(|i| g.edges[*i].role == Role::Probe(p as u16))
 }
 
+/// share: the upstream subscription a sink is attached to = the latest one started before the
+/// sink was greeted
+pub fn share_upstream_of(g: &Inner, pe: EdgeId) -> Option<EdgeId> {
+    let tg = times(g, pe).greet_in;
+    if tg == INF {
+        return None;
+    }
+    puppet_edges(g).into_iter().filter(|ue| times(g, *ue).sub_in < tg).max_by_key(|ue| times(g, *ue).sub_in)
+}
+
 pub fn any_upstream_live_at(g: &Inner, t: u32) -> bool {
     puppet_edges(g).into_iter().any(|e| times(g, e).live_at(t))
 }
@@ -420,7 +430,10 @@ fn c05_step(b: &Built, g: &mut Inner, st: &mut State, from: usize, to: usize) {
         }
         let owner = g.edges[e].owner;
         let targets: Vec<EdgeId> = if matches!(b.topo, Topo::Share(_)) {
-            probe_edges(g).into_iter().filter(|pe| times(g, *pe).live_at(x.t_in)).collect()
+            probe_edges(g)
+                .into_iter()
+                .filter(|pe| times(g, *pe).live_at(x.t_in) && share_upstream_of(g, *pe) == Some(e))
+                .collect()
         } else if owner >= 0 {
             edge_of_probe(g, owner as usize).into_iter().filter(|pe| times(g, *pe).open_at(x.t_in)).collect()
         } else {
@@ -1247,14 +1260,24 @@ fn c12_step(b: &Built, g: &mut Inner, st: &mut State, from: usize, to: usize) {
             (Role::Probe(_), Dir::Up, Kind::Handshake) => {
                 bump(st, "c12.attach");
                 let others: Vec<EdgeId> = sub_open_at(ev.t_in).into_iter().filter(|x| *x != e).collect();
+                // upstream subscriptions started by this very attach (not by an attach nested in it)
                 let started = ues
                     .iter()
                     .filter(|(ue, _)| {
                         let s = g.edges[*ue].events[0] as usize;
-                        within(g, s, i)
+                        ancestor(g, s, |a| {
+                            let ea = &g.events[a];
+                            matches!(g.edges[ea.edge as usize].role, Role::Probe(_))
+                                && ea.dir == Dir::Up
+                                && ea.kind == Kind::Handshake
+                        }) == Some(i)
                     })
                     .count();
-                if others.is_empty() && started != 1 {
+                // "A sink attaching after the end (or after everyone left) starts a fresh upstream
+                // subscription": fresh iff nobody else is attached or the upstream subscription is over
+                let upstream_live = ues.iter().any(|(_, ut)| ut.sub_in < ev.t_in && !ut.over_at(ev.t_in));
+                let need_fresh = others.is_empty() || !upstream_live;
+                if need_fresh && started != 1 {
                     report(
                         g,
                         st,
@@ -1263,10 +1286,14 @@ fn c12_step(b: &Built, g: &mut Inner, st: &mut State, from: usize, to: usize) {
                         &op,
                         e,
                         i as i32,
-                        format!("a sink attached while none was attached; {} upstream subscriptions were started", started),
+                        format!(
+                            "a sink attached while {}; {} upstream subscriptions were started",
+                            if others.is_empty() { "none was attached" } else { "the upstream subscription was already over" },
+                            started
+                        ),
                     );
                 }
-                if !others.is_empty() && started != 0 {
+                if !need_fresh && started != 0 {
                     report(
                         g,
                         st,
@@ -1288,6 +1315,10 @@ fn c12_step(b: &Built, g: &mut Inner, st: &mut State, from: usize, to: usize) {
             // (c) every attached sink receives every datum and the termination
             (Role::Puppet(..), Dir::Down, Kind::Data | Kind::Terminate | Kind::Error) => {
                 for pe in attached_at(ev.t_in) {
+                    // only the sinks attached to *this* upstream subscription are owed its messages
+                    if share_upstream_of(g, pe) != Some(e) {
+                        continue;
+                    }
                     bump(st, "c12.fanout");
                     let got: Vec<usize> = evs(g, pe, Dir::Down, &[ev.kind])
                         .into_iter()
@@ -1314,8 +1345,13 @@ fn c12_step(b: &Built, g: &mut Inner, st: &mut State, from: usize, to: usize) {
             },
             // (d) upstream is disposed exactly when the last attached sink detaches
             (Role::Probe(_), Dir::Up, Kind::Terminate | Kind::Error) => {
-                let rest: Vec<EdgeId> = attached_at(ev.t_in).into_iter().filter(|x| *x != e).collect();
-                let live_up: Vec<&(EdgeId, Times)> = ues.iter().filter(|(_, ut)| ut.live_at(ev.t_in)).collect();
+                let mine = share_upstream_of(g, e);
+                let rest: Vec<EdgeId> = attached_at(ev.t_in)
+                    .into_iter()
+                    .filter(|x| *x != e && share_upstream_of(g, *x) == mine)
+                    .collect();
+                let live_up: Vec<&(EdgeId, Times)> =
+                    ues.iter().filter(|(ue, ut)| ut.live_at(ev.t_in) && Some(*ue) == mine).collect();
                 for (ue, _) in live_up {
                     bump(st, "c12.detach");
                     let stopped: usize = evs(g, *ue, Dir::Up, &[Kind::Terminate, Kind::Error])
@@ -1406,7 +1442,10 @@ fn c14_step(b: &Built, g: &mut Inner, st: &mut State, at_end: bool) {
 fn c15_step(b: &Built, g: &mut Inner, st: &mut State, from: usize, to: usize) {
     let op = b.op.clone();
     for pe in probe_edges(g) {
-        let owner = g.edges[pe].owner;
+        let owner = match g.edges[pe].role {
+            Role::Probe(pi) => pi as i32,
+            _ => continue,
+        };
         let ie = match (0..g.edges.len()).find(|e| matches!(g.edges[*e].role, Role::Iter(..)) && g.edges[*e].owner == owner) {
             Some(e) => e,
             None => continue,
